@@ -24,6 +24,12 @@ pub fn flash_loan(
         return Err(VaultError::FlashLoansDisabled {});
     }
 
+    // a loan taken while another one is in flight would have its fees counted towards the
+    // repayment of the outer loan, so nested loans on the same vault are not allowed
+    if LOAN_COUNTER.load(deps.storage)? != 0 {
+        return Err(VaultError::Unauthorized {});
+    }
+
     // increment loan counter
     LOAN_COUNTER.update::<_, StdError>(deps.storage, |c| {
         Ok(c.checked_add(1)
